@@ -124,11 +124,16 @@ Proof.
     destruct G as [y [-> Ly]]. exact Ly. }
   destruct (all_done_by ts (t1 l)) eqn:D1.
   - specialize (A (t1 l) D1). lia.
-  - destruct (main_task ts) as [m|]; [|lia]. destruct (leb_o (ends m) (t1 l)); [lia|]. destruct (on_int m); [lia|].
-    destruct (all_done_by ts (t1 l + t2 l)) eqn:D2; [exact (A _ D2)|lia].
+  - destruct (main_task ts) as [m|]; [|lia]. destruct (leb_o (ends m) (t1 l)); [lia|]. destruct (on_int m).
+    + destruct (others_done ts) as [x|]; [|lia]. destruct (x <=? t1 l + t2 l) eqn:X; [apply Nat.leb_le in X; lia|lia].
+    + destruct (all_done_by ts (t1 l + t2 l)) eqn:D2; [exact (A _ D2)|lia].
 Qed.
-(* ... and at t1 when no task in the main thread swallows the interrupt *)
-Theorem ladder_sigint_suffices : forall l ts, (forall m, main_task ts = Some m -> on_int m = Unwinds \/ leb_o (ends m) (t1 l) = true) -> exit_time l ts <= t1 l.
+(* ... and at t1 when SIGINT finds the main thread idle, or inside a task that unwinds while no other thread's task is still
+   running (a task in another thread keeps the receiver -- which serve() joins -- waiting until t1 + t2) *)
+Theorem ladder_sigint_suffices : forall l ts,
+  (forall m, main_task ts = Some m -> leb_o (ends m) (t1 l) = true \/
+        (on_int m = Unwinds /\ exists x, others_done ts = Some x /\ x <= t1 l)) ->
+  exit_time l ts <= t1 l.
 Proof.
   intros l ts H. unfold exit_time. destruct (all_done_by ts (t1 l)) eqn:D1.
   - unfold all_done_by in D1. rewrite forallb_forall in D1.
@@ -136,5 +141,6 @@ Proof.
     { apply omax_bound. intros o I. apply in_map_iff in I. destruct I as [x [<- Ix]]. specialize (D1 x Ix). unfold leb_o in D1.
       destruct (ends x) as [e|]; [|discriminate]. apply Nat.leb_le in D1. eauto. }
     destruct G as [y [-> Ly]]. exact Ly.
-  - destruct (main_task ts) as [m|] eqn:M; [|lia]. destruct (H m eq_refl) as [U|E]; [|rewrite E; lia]. destruct (leb_o (ends m) (t1 l)); [lia|]. rewrite U. lia.
+  - destruct (main_task ts) as [m|] eqn:M; [|lia]. destruct (H m eq_refl) as [E|[U [x [O Lx]]]]; [rewrite E; lia|].
+    destruct (leb_o (ends m) (t1 l)); [lia|]. rewrite U, O. destruct (x <=? t1 l + t2 l) eqn:X; [lia|apply Nat.leb_gt in X; lia].
 Qed.
